@@ -15,4 +15,7 @@ CASES = [
     dict(expect="fire", desc="with_latest_from: children also emit", names="with_latest_from_", edits=[dict(file=WL,
          old="                    with parent.lock:\n                        values[i] = value\n", new="                    with parent.lock:\n                        values[i] = value\n                        observer.on_next((value,))\n")]),
     dict(expect="silent", desc="combine_latest: helper renamed", edits=[dict(file=CL, old="def _next(", new="def _emit("), dict(file=CL, old="                    _next(i)", new="                    _emit(i)")]),
+    dict(expect="fire", desc="seed C13-r2/2: with_latest_from subscribes the primary before the others", names="G1-gating", edits=[dict(file="reactivex/observable/withlatestfrom.py",
+         old="            children_subscription = [\n                subscribechild(i, child) for i, child in enumerate(children)\n            ]\n            disp = parent.subscribe(\n                on_next, on_error, on_completed, scheduler=scheduler\n            )\n            parent_subscription.disposable = disp\n",
+         new="            parent_subscription.disposable = parent.subscribe(\n                on_next, on_error, on_completed, scheduler=scheduler\n            )\n            children_subscription = [\n                subscribechild(i, child) for i, child in enumerate(children)\n            ]\n")]),
 ]
